@@ -77,12 +77,12 @@ class PROP(Prop):
         out.append(("static/RSync.add_target/destdir-and-options-sent-first", "channel.send((str(destdir), options))" in at and "channel.setcallback(itemcallback, endmarker=None)" in at, "add_target"))
         r = extract.load(RSYNCR)
         sr = ast.unparse(r.func("serve_rsync"))
-        order = [sr.find("receive_directory_structure(destdir, [])"), sr.find("channel.send(('list_done', None))"), sr.find("for path, (mode, time, size) in modifiedfiles"), sr.find("channel.send(('links', None))"),
+        order = [sr.find("receive_directory_structure(destdir, [])"), sr.find("channel.send(('list_done', None))"), sr.find(" in modifiedfiles:"), sr.find("channel.send(('links', None))"),
                  sr.find("while msg != 42"), sr.find("channel.send(('done', None))")]
         out.append(("static/serve_rsync/phases-in-protocol-order", all(p >= 0 for p in order) and order == sorted(order), f"positions {order}"))
         rds = ast.unparse(r.func("serve_rsync.receive_directory_structure"))
-        out.append(("static/receive_directory_structure/directories-forced-writable-and-only-directories", rds.count("| 448") + rds.count("| 0o700") == 1 and "os.makedirs(path)" in rds, "one `| 0o700`, on the directory branch"))
-        out.append(("static/receive_directory_structure/deletion-only-with-delete-and-only-unlisted-names", "if options.get('delete'):" in rds and "if othername not in entrynames:" in rds, "deletion loop guard"))
+        out.append(("static/receive_directory_structure/directories-forced-writable-and-only-directories", sr.count("| 448") + sr.count("| 0o700") == 1 and "os.makedirs(path)" in sr, "one `| 0o700`, on the directory branch"))
+        out.append(("static/receive_directory_structure/deletion-only-with-delete-and-only-unlisted-names", "if options.get('delete'):" in sr and " not in entrynames:" in sr, "deletion loop guard"))
         return out
 
     def replay(self, ob):
